@@ -289,6 +289,17 @@ func runLive(c *core.Case) {
 							continue
 						}
 						if got, ok := D[s][t]; ok && !(isStale(got) && (staleOK[s] || firstAfterReload)) {
+							// another group (different interval, coinciding slot) may legitimately
+							// have produced this very sample
+							byOther := false
+							for _, o := range offered[fmt.Sprintf("%s|%d", s, t)] {
+								if sameValue(o, got) {
+									byOther = true
+								}
+							}
+							if byOther {
+								continue
+							}
 							c.Violatef(kFailedStored, "live: group %s v%d rule %s (%s) failed at %d (%s) but series %s has sample %s at that time", x.g.key(), x.g.ver, ru.name, ru.expr, t, res[i].fail, s, got.ValKey())
 						}
 					}
